@@ -1,6 +1,5 @@
 /- Proofs/GapTailFits.lean — the fit guard `gapFitsBack` of a replace-around step whose gap ends in front of a
-   closing token (the gap runs to the end of its parent node), for schemas with `TextLoop`: the gap may start
-   inside a text child. -/
+   closing token (the gap runs to the end of its parent node): the gap may start inside a text child. -/
 import Proofs.GapTailInsert
 import Proofs.GapTailPath
 import Proofs.GapBack
@@ -26,12 +25,12 @@ theorem tokAligned_of_cl (l : List Tok) (p : Nat) (h : l[p]? = some Tok.cl) : to
     simp only [tokAligned, h]
     split <;> simp_all
 
-/-- **the gap of a replace-around step that ends in front of a closing token fits back** (`hts` is no longer used: since
-    `insert_into` validates the content it built, `gapFitsBack_of_valid` needs no schema condition; the cut in the
-    remainder is pair-aligned because a closing token follows it):
+/-- **the gap of a replace-around step that ends in front of a closing token fits back** (no schema condition: since
+    `insert_into` validates the content it built, `gapFitsBack_of_valid` needs none — `TextLoop S` was a hypothesis
+    here; the cut in the remainder is pair-aligned because a closing token follows it):
     `gf … gt` removed from `doc.slice(f, t)` can be re-inserted by `insert_at`, also when `gf` lies inside a text
     child -/
-theorem gapFitsBack_of_tail (S : Schema) (hts : TextLoop S) (doc : Node) (f t gf gt : Nat) (old rem gap : Slice)
+theorem gapFitsBack_of_tail (S : Schema) (doc : Node) (f t gf gt : Nat) (old rem gap : Slice)
     (hd : S.checkNode doc = true) (hn : fnorm doc.kids = true)
     (hg : f ≤ gf ∧ gf ≤ gt ∧ gt < t) (ht : t ≤ fsize doc.kids)
     (hsl : doc.slice f t = .ok old) (hgap : doc.slice gf gt = .ok gap)
